@@ -92,3 +92,30 @@ def handler_catches(h: ast.ExceptHandler, names: set[str]) -> bool:
         return True
     ts = h.type.elts if isinstance(h.type, ast.Tuple) else [h.type]
     return any(norm(t).split(".")[-1] in names for t in ts)
+
+
+def expand_ites(t, limit=64):
+    """Distribute gated terms out of arithmetic: list of (guards, ite-free term)."""
+    if not isinstance(t, tuple) or not t:
+        return [((), t)]
+    k = t[0]
+    if k == "ite":
+        out = []
+        for g, x in expand_ites(t[2], limit):
+            out.append((((t[1], True),) + g, x))
+        for g, x in expand_ites(t[3], limit):
+            out.append((((t[1], False),) + g, x))
+        return out[:limit]
+    if k == "bin":
+        out = []
+        for g1, a in expand_ites(t[2], limit):
+            for g2, b in expand_ites(t[3], limit):
+                if any((c, not p) in g1 for c, p in g2):
+                    continue
+                out.append((g1 + tuple(x for x in g2 if x not in g1), ("bin", t[1], a, b)))
+        return out[:limit]
+    if k == "un":
+        return [(g, ("un", t[1], a)) for g, a in expand_ites(t[2], limit)]
+    if k == "call" and len(t[3]) == 1 and not t[4] and t[2][0] == "builtin":
+        return [(g, ("call", t[1], t[2], (a,), t[4])) for g, a in expand_ites(t[3][0], limit)]
+    return [((), t)]
